@@ -40,18 +40,27 @@ partial def SymV.beq : SymV → SymV → Bool
 
 instance : BEq SymV := ⟨SymV.beq⟩
 
+/-- in-place edits recorded here are idempotent (zeroing the masked entries twice = once) -/
+def addTag (t : String) (es : List String) : List String := if es.contains t then es else es ++ [t]
+
 def SymV.addEdit (t : String) : SymV → SymV
-  | .mk k c ds es => .mk k c ds (es ++ [t])
+  | .mk k c ds es => .mk k c ds (addTag t es)
+
+partial def SymV.dirty : SymV → Bool
+  | .mk _ c ds es => !es.isEmpty || !c.edits.isEmpty || ds.any SymV.dirty
 
 def strsToJson (l : List String) : Json := Json.arr (l.map Json.str).toArray
 
 def symCToJson (c : SymC) : Json :=
   obj [("root", natToJson c.root), ("path", strsToJson c.path), ("edits", strsToJson c.edits)]
 
-partial def symVToJson : SymV → Json
+/-- a reported value: its top node, and whether anything in its dependency tree was edited in place
+    (`dirty`); the full tree is sent only on request (`"trees": true`). -/
+partial def symVToJson (full : Bool) : SymV → Json
   | .mk k c ds es =>
-    obj [("key", Json.str k), ("at", symCToJson c), ("deps", Json.arr (ds.map symVToJson).toArray),
-         ("edits", strsToJson es)]
+    obj ([("key", Json.str k), ("at", symCToJson c), ("edits", strsToJson es),
+          ("dirty", Json.bool (SymV.dirty (.mk k c ds es)))] ++
+         (if full then [("deps", Json.arr (ds.map (symVToJson full)).toArray)] else []))
 
 structure KeyEff where
   cached : Bool := false
@@ -109,14 +118,14 @@ def symEffects (t : Table) : Effects String (String × String) String SymC SymV 
     cached := fun k => (ke k).cached
     deps := fun k => (ke k).deps
     drops := fun k => (ke k).drops
-    cwrites := fun k => (ke k).cwrites.map fun w => (w.1, fun (c : SymC) => { c with edits := c.edits ++ [w.2] })
+    cwrites := fun k => (ke k).cwrites.map fun w => (w.1, fun (c : SymC) => { c with edits := addTag w.2 c.edits })
     vwrites := fun k => (ke k).vwrites.map fun w => (w.1, w.2.1, SymV.addEdit w.2.2)
     apply := fun g c => { c with path := c.path ++ [g.2] }
     keeps := fun g k => match t.derivs.lookup g.1 with
       | none => false
       | some ks => ks.contains "*" || ks.contains k
     ctorWrites := fun ty => ((t.ctors.lookup ty).getD []).map fun w =>
-      (w.1, fun (c : SymC) => { c with edits := c.edits ++ [w.2] }) }
+      (w.1, fun (c : SymC) => { c with edits := addTag w.2 c.edits }) }
 
 def getStep (j : Json) : Except String (Impl.Step String (String × String) String SymC) := do
   let op ← getStr (← field j "op")
@@ -150,15 +159,17 @@ def cacheMachine : Op := fun j => do
   let E := symEffects t
   let steps ← getList getStep (← field j "history")
   let fuel := 64
+  let full ← getBool (fieldD j "trees" (Json.bool false))
   let (_, outs) := steps.foldl (fun (acc : Heap String SymC SymV × List Json) s =>
     let (h, out) := acc
     let (h1, r) := Impl.step E fuel h s
     let (ch, vch) := diffHeaps h h1
-    let o := obj [("value", optToJson symVToJson r), ("changed", natsToJson ch),
+    let o := obj [("value", optToJson (symVToJson full) r), ("changed", natsToJson ch),
                   ("vchanged", listToJson (fun (p : Nat × String) => Json.arr #[natToJson p.1, Json.str p.2]) vch),
                   ("size", natToJson h1.length)]
     (h1, out ++ [o])) (([] : Heap String SymC SymV), [])
-  pure (obj [("steps", Json.arr outs.toArray)])
+  -- `tag` is echoed so the harness can keep its bookkeeping with the request
+  pure (obj [("steps", Json.arr outs.toArray), ("tag", fieldD j "tag" Json.null)])
 
 def getRStep (j : Json) : Except String Impl.RStep := do
   let op ← getStr (← field j "op")
